@@ -55,7 +55,8 @@ LEANCHECKER = False      # thousands of generated declarations: `lake build` + a
 
 QUIET = io.StringIO()
 LAMINAPROPS = [(123.55e3, 8.708e3, 0.319, 5.695e3, 5.695e3, 5.695e3), (142.5e3, 8.7e3, 0.28, 5.1e3, 5.1e3, 5.1e3)]
-ENERGY_MODELS = ['clpt_donnell_bc1', 'clpt_donnell_bc3', 'clpt_donnell_bc4']
+ENERGY_MODELS = ['clpt_donnell_bc1', 'clpt_donnell_bc3', 'clpt_donnell_bc4', 'clpt_sanders_bc1', 'clpt_sanders_bc2', 'clpt_sanders_bc3', 'clpt_sanders_bc4']
+ID_SANDERS_BC3_ENERGY = 'C16-clpt-sanders-bc3-k0-vs-own-strain-field'
 API_MODELS = ['clpt_donnell_bc1', 'clpt_donnell_bc2', 'clpt_donnell_bc3', 'clpt_donnell_bc4', 'clpt_sanders_bc1', 'clpt_sanders_bc2',
               'clpt_sanders_bc3', 'clpt_sanders_bc4', 'fsdt_donnell_bc1', 'fsdt_donnell_bc2', 'fsdt_donnell_bc3', 'fsdt_donnell_bc4',
               'fsdt_donnell_bcn', 'fsdt_sanders_bcn', 'iso_clpt_donnell_bc2', 'iso_clpt_donnell_bc3']
@@ -386,7 +387,8 @@ def impl_case(ctx, rng):
             tol = 1e-4 if alphadeg else 1e-8
             if err > tol:
                 k = np.unravel_index(np.argmax(np.abs(ku - Hu) / np.outer(dd, dd)), ku.shape)
-                out.append((None, 'k0 of %s (alphadeg %.3g) differs from the Hessian of the strain energy of the package\'s own linear '
+                out.append((ID_SANDERS_BC3_ENERGY if model == 'clpt_sanders_bc3' else None,
+                            'k0 of %s (alphadeg %.3g) differs from the Hessian of the strain energy of the package\'s own linear '
                                   'strain field (+ edge restraints): scaled error %.3e at free entry %r: k0 %.6e vs d2U %.6e'
                                   % (model, alphadeg, err, tuple(int(x) for x in k), ku[k], Hu[k])))
         # isotropic short cut
@@ -476,9 +478,10 @@ def correspondence(ctx):
     dist = dict(models={}, cones=0, energy=0, max_energy_err_cyl=0., max_energy_err_cone=0., min_eig=0., energy_sweep={})
     # fixed sweep: every classical Donnell model, cylinder (and one cone), DISTINCT elastic restraint on every edge and direction
     import random as _r
-    for model in ['clpt_donnell_bc1', 'clpt_donnell_bc2', 'clpt_donnell_bc3', 'clpt_donnell_bc4']:
+    for model in ['clpt_donnell_bc1', 'clpt_donnell_bc2', 'clpt_donnell_bc3', 'clpt_donnell_bc4',
+                  'clpt_sanders_bc1', 'clpt_sanders_bc2', 'clpt_sanders_bc3', 'clpt_sanders_bc4']:
         for alphadeg in ([0.] if model == 'clpt_donnell_bc2' else [0., 25.]):
-            if alphadeg and not ctx.thorough() and model != 'clpt_donnell_bc4':
+            if alphadeg and not ctx.thorough() and model not in ('clpt_donnell_bc4', 'clpt_sanders_bc1'):
                 continue
             restr = dict(kuBot=1.1e3, kuTop=2.3e3, kvBot=3.7e3, kvTop=0.9e3, kphixBot=5.e4, kphixTop=7.e4)
             with contextlib.redirect_stdout(QUIET), np.errstate(all='ignore'):
@@ -498,7 +501,8 @@ def correspondence(ctx):
                 if ctx.violation('C16 fails on the implementation: k0 of %s (alphadeg %g, distinct edge restraints %r) differs from the Hessian of '
                                  'the strain energy of the package\'s own strain field + edge restraints: scaled error %.3e at free entry %r: '
                                  'k0 %.6e vs d2U %.6e' % (model, alphadeg, restr, err, tuple(int(x) for x in k), ku[k], Hu[k]),
-                                 dict(kind='energy_sweep', model=model, alphadeg=alphadeg, restraints=restr)):
+                                 dict(kind='energy_sweep', model=model, alphadeg=alphadeg, restraints=restr),
+                                 identity=ID_SANDERS_BC3_ENERGY if model == 'clpt_sanders_bc3' else None):
                     return
     # fixed sweep: symmetry and positive semi-definiteness of EVERY model, cylinder and cone, on every run
     psd = {}
